@@ -121,6 +121,14 @@ func tokenizeStream(src io.Reader, normalize bool, dict *dictionary, updateDict 
 			r, n := utf8.DecodeRune(rbuf[idx:end])
 			idx += n
 
+			if r == '\r' && idx < end && rbuf[idx] == '\n' {
+				// A carriage return directly in front of a line feed is part of the
+				// line break. Skipping it lets a word that is hyphenated at the end of
+				// a CR LF terminated line be joined exactly like one at the end of an
+				// LF terminated line.
+				continue
+			}
+
 			if r == '\n' {
 				// Deal with carriage return
 
